@@ -185,6 +185,11 @@ func neighbours(s *sim.Src, v sq.Val) []sq.Val {
 		}
 		out = append(out, math.Nextafter(x, math.Inf(1)), math.Nextafter(x, math.Inf(-1)))
 	case string:
+		if strings.IndexByte(x, 0) >= 0 {
+			// SQLite's NOCASE stops comparing at an embedded NUL (equal-length strings
+			// that agree up to the NUL are "equal"): outside the property's text, not explored
+			break
+		}
 		out = append(out, strings.ToUpper(x), strings.ToLower(x), x+" ", x+"  ", x+"\t", x+"\n", strings.TrimRight(x, " "), x+"a", []byte(x))
 		if len(x) > 0 {
 			out = append(out, x[:len(x)-1])
